@@ -123,6 +123,15 @@ def apply(ov, lift_asm=True, log=None):
                 if "asm!" not in s and "core::arch::asm" not in s:
                     continue
                 s2 = s.replace("core::arch::asm", "crate::verif_isa::asm")
+                # grouped import: `use core::{arch::asm, cmp, ..};`
+                def ungroup(mo):
+                    items = [x.strip() for x in mo.group(1).split(",") if x.strip()]
+                    if "arch::asm" not in items:
+                        return mo.group(0)
+                    items.remove("arch::asm")
+                    rest = ("use core::{" + ", ".join(items) + "};\n") if items else ""
+                    return rest + "use crate::verif_isa::asm;"
+                s2 = re.sub(r"use core::\{([^}]*)\};", ungroup, s2)
                 # every file that invokes asm! must now resolve it to the shadow
                 invocations = len(re.findall(r"(?<![A-Za-z0-9_])asm!\s*\(", s2))
                 if invocations and "crate::verif_isa::asm" not in s2:
@@ -138,7 +147,7 @@ def apply(ov, lift_asm=True, log=None):
         for d, _, fs in os.walk(os.path.join(ov, "src")):
             for f in fs:
                 if f.endswith(".rs") and "verif_" not in d:
-                    if re.search(r"core::arch::(global_)?asm", open(os.path.join(d, f)).read()):
+                    if re.search(r"arch::(global_)?asm", open(os.path.join(d, f)).read()):
                         raise OverlayError(f"O2: residual core::arch asm in {f}")
 
     # ---- O1 --------------------------------------------------------------
